@@ -1191,6 +1191,76 @@ func comparerOutcome(e an.CondEdge, idx int) (*ssa.Call, bool, bool) {
 	return nil, false, false
 }
 
+// containsFuncCombiner: the body is `return [!]slices.ContainsFunc(eqs, func(eq) bool { return [!]eq(x, y) })` with
+// no negation for a disjunction (stopOn true) and both negations for a conjunction; argsOK: the inner call passes the
+// body's two parameters in order.
+func containsFuncCombiner(a *ssa.Function, stopOn bool) (ok bool, argsOK bool) {
+	rets := an.Returns(a)
+	if len(rets) != 1 || len(rets[0].Results) != 1 {
+		return false, false
+	}
+	strip := func(v ssa.Value) (ssa.Value, bool) {
+		if u, isU := v.(*ssa.UnOp); isU && u.Op == token.NOT {
+			return u.X, true
+		}
+		return v, false
+	}
+	v, neg1 := strip(rets[0].Results[0])
+	call, isCall := v.(*ssa.Call)
+	if !isCall || !strings.HasPrefix(an.CalleeName(call), "slices.ContainsFunc") || len(call.Call.Args) != 2 {
+		return false, false
+	}
+	mc, isMC := call.Call.Args[1].(*ssa.MakeClosure)
+	if !isMC {
+		return false, false
+	}
+	inner, _ := mc.Fn.(*ssa.Function)
+	if inner == nil || len(inner.Params) != 1 {
+		return false, false
+	}
+	irets := an.Returns(inner)
+	if len(irets) != 1 || len(irets[0].Results) != 1 {
+		return false, false
+	}
+	iv, neg2 := strip(irets[0].Results[0])
+	icall, isIC := iv.(*ssa.Call)
+	if !isIC || icall.Call.Value != ssa.Value(inner.Params[0]) || len(icall.Call.Args) != 2 {
+		return false, false
+	}
+	if neg1 != neg2 || neg1 == stopOn {
+		return false, false
+	}
+	bound := func(arg ssa.Value) ssa.Value {
+		// captured by reference: the closure loads the variable's cell, which the body filled from its parameter
+		if u, isU := arg.(*ssa.UnOp); isU && u.Op == token.MUL {
+			arg = u.X
+		}
+		for i, fv := range inner.FreeVars {
+			if arg == ssa.Value(fv) && i < len(mc.Bindings) {
+				b := mc.Bindings[i]
+				if al, isAl := b.(*ssa.Alloc); isAl {
+					var val ssa.Value
+					cnt := 0
+					for _, r := range *al.Referrers() {
+						if st, isSt := r.(*ssa.Store); isSt && st.Addr == ssa.Value(al) {
+							val = st.Val
+							cnt++
+						}
+					}
+					if cnt == 1 {
+						return val
+					}
+					return nil
+				}
+				return b
+			}
+		}
+		return nil
+	}
+	argsOK = len(a.Params) >= 2 && bound(icall.Call.Args[0]) == ssa.Value(a.Params[0]) && bound(icall.Call.Args[1]) == ssa.Value(a.Params[1])
+	return true, argsOK
+}
+
 func r164(c *an.Ctx) {
 	const rule = "R16.4"
 	for _, t := range []struct {
@@ -1209,6 +1279,14 @@ func r164(c *an.Ctx) {
 			continue
 		}
 		c.SawFunc(an.FuncName(a))
+		if ok2, args2 := containsFuncCombiner(a, t.stopOn); ok2 {
+			// the library spelling of the same loop: Or = ContainsFunc(eqs, eq(x, y)), And = !ContainsFunc(eqs, !eq(x, y))
+			c.Ok(rule, "pkg/cmp."+t.fn+"|stops at the first deciding comparer", a.Pos(), "slices.ContainsFunc stops at the first match")
+			c.Ok(rule, "pkg/cmp."+t.fn+"|verdict when no comparer decided", a.Pos(), "slices.ContainsFunc answers false without a match")
+			c.Check(args2, rule, "pkg/cmp."+t.fn+"|comparers see (x, y) in order", a.Pos(), "", "a combined comparer is not called with (x, y)")
+			restore()
+			continue
+		}
 		okEarly, okAfter := false, false
 		for _, r := range an.Returns(a) {
 			b, isC := boolOf(r.Results[0])
